@@ -1,2 +1,93 @@
-// Package c14: monitor for property C14 (see DESIGN.md section 2).
+// Package c14: value-log truncation keeps everything at or after the cut readable.
+//
+// One isolated case = one history. Store histories: 1–8 concurrent committers
+// (schedule perturbation at store.precommit.beforeLock, i.e. after the values were
+// appended and before an id is assigned, so values land in the value logs out of id
+// order), MaxIOConcurrency 1–4, FileSize 256 B – 4 KiB, value cache on/off, empty
+// values at any position; then every cut point n on a private copy of the store
+// (single / repeated / concurrent truncation, with and without restart) and
+// truncations racing with writers and readers in place, restart. The oracle is the
+// ledger of acknowledged commits (store.go). Database histories (db.go): catalog
+// first, database truncator beyond the catalog's txs, restart, SQL and documents.
+// Non-termination is decided by goroutine state (hang.go).
 package c14
+
+import (
+	"encoding/json"
+	"fmt"
+	"math/rand/v2"
+	"os"
+	"time"
+
+	"verifharness/internal/fw"
+)
+
+func init() {
+	fw.RegisterMonitor("C14", "exploration", Run)
+	fw.RegisterIsolated("c14-history", func(c *fw.Ctx, data []byte) {
+		var sp spec
+		if err := json.Unmarshal(data, &sp); err != nil {
+			c.Inconclusive("bad case: " + err.Error())
+			return
+		}
+		if sp.Kind == "db" {
+			runDBHistory(c, sp)
+		} else {
+			runStoreHistory(c, sp)
+		}
+	})
+}
+
+func genSpec(r *rand.Rand, i int, thorough bool) spec {
+	sp := spec{
+		Name:       fmt.Sprintf("h%d", i),
+		Kind:       "store",
+		IOConc:     1 + i%4,
+		FileSize:   []int{256, 384, 512, 1024, 2048, 4096}[r.IntN(6)],
+		VLogCache:  []int{0, 0, 8, 64}[r.IntN(4)],
+		Committers: []int{1, 2, 3, 4, 6, 8}[r.IntN(6)],
+		NTx:        16 + r.IntN(22),
+		RaceTx:     30 + r.IntN(30),
+		Truncators: 1 + r.IntN(2),
+		Perturb:    []float64{0.3, 0.5, 0.8}[r.IntN(3)],
+	}
+	if thorough {
+		sp.NTx = 40 + r.IntN(110)
+		sp.MaxCuts = 16
+		sp.RaceTx = 60 + r.IntN(120)
+	}
+	switch {
+	case i%6 == 5:
+		// database level
+		sp.Kind = "db"
+		sp.FileSize = []int{512, 1024, 2048}[r.IntN(3)]
+		sp.VLogCache = 0
+	case i%12 == 7:
+		// control: with embedded values truncation deletes nothing
+		sp.Embedded = true
+		sp.IOConc = 1
+	}
+	if i == 0 {
+		// the plain sequential history: one committer, one value log, no cache
+		sp.Committers, sp.IOConc, sp.VLogCache, sp.FileSize = 1, 1, 0, 256
+	}
+	return sp
+}
+
+func Run(c *fw.Ctx) {
+	c.Rule = "PRNG histories (concurrent committers with hook perturbation after the value append, IO concurrency, file size, value cache, empty-value patterns) × every cut point on a private copy (single/repeated/concurrent truncation, restart) + truncations racing writers and readers in place + database-level truncator with SQL/documents; one evaluation = one read/proof/export/follow-up request or truncation compared with the ledger; distinct = (IO concurrency × observed value placement × cut position relative to the tx × empty-value pattern × read path × outcome) observed, plus truncation modes/outcomes and database steps"
+	c.Assume("only acknowledged commits are audited; values of txs below the highest requested cut may be unreadable, never different; a truncation that returns an error is harmless")
+	c.Assume("a goroutine parked in sync.Mutex.Lock taken directly in ExportTx, with every goroutine inside ExportTx parked the same way in two dumps 2 s apart, can never be released (the mutex is only held inside ExportTx)")
+	r := c.Rand("c14/specs")
+	n := c.N(12, 400)
+	var cases [][]byte
+	for i := 0; i < n; i++ {
+		sp := genSpec(r, i, c.Thorough())
+		if only := os.Getenv("VERIF_C14_ONLY"); only != "" && only != sp.Name && only != sp.Kind {
+			continue // development aid: run one history (never set by registered commands)
+		}
+		b, _ := json.Marshal(sp)
+		cases = append(cases, b)
+	}
+	c.RunIsolated("c14-history", cases, fw.CasesOpts{Workers: c.N(12, 16), CaseTimout: 10 * time.Minute})
+}
